@@ -102,7 +102,7 @@ def family(l):
         return "steps"
     if head in ("CFG", "FACT", "LINT", "CFGERR"):
         return "full"
-    if head in ("XCFG", "XFACT", "XLINT", "XERR"):
+    if head in ("XCFG", "XFACT", "XLINT", "XERR") or (head == "HANG" and "extra" in l):
         return "extra"
     if head == "RUN" or head == "HANG":
         return "run"
